@@ -946,8 +946,12 @@ def _run_secprog(case):
             run(case["prog"])
         except _Boom:
             raised = True
+        # `width_seen`: the terminal width clikit itself reports for this run - the `w` of section_redraw_keeps_indent
+        # (hypothesis 1 <= w; the driver refuses width 0) must be the width handed to the model (SEC_WIDTH)
+        from clikit.utils.terminal import Terminal
         return {"steps": steps, "raised": raised, "err": io.fetch_error(),
-                "indent": [io.output._indent] + [sec_out(i)._indent for i in range(len(secs))]}
+                "indent": [io.output._indent] + [sec_out(i)._indent for i in range(len(secs))],
+                "width_seen": Terminal().width}
     return _guard(go)
 
 
@@ -1083,7 +1087,8 @@ def model_obs(case, answers):
         return {"steps": [{"bytes": st["bytes"],
                            "secs": [["".join(l + "\n" for l in x["content"]), x["rows"]] for x in st["secs"]]}
                           for st in a["steps"]],
-                "raised": a["raised"], "indent": a["indent"], "err": "", "lexical": a["lexical"]}
+                "raised": a["raised"], "indent": a["indent"], "err": "", "lexical": a["lexical"],
+                "width_seen": SEC_WIDTH}
     return {"out": a["out"], "err": a["err"], "raised": a["raised"], "indent": a["indent"]}
 
 
